@@ -1,2 +1,6 @@
 import Shovel.Model.Basic
 import Shovel.Model.Codec
+import Shovel.Model.Abi
+import Shovel.Model.AbiType
+import Shovel.Model.Parse
+import Shovel.Spec.Abi
